@@ -112,6 +112,13 @@ def zoo_warn() -> dict:
                                 "callbacks": {"cb": {"{$request.body#/url}": {"post": {"responses": {"200": {"description": "ok"}}}}}}}}
     paths["/noid"] = {"get": {"responses": {"200": {"description": "ok"}}}, "head": {"responses": {"200": {"description": "ok"}}}, "options": {"responses": {"200": {"description": "ok"}}},
                       "trace": {"responses": {"200": {"description": "ok"}}}}
+    # one component parameter the generator cannot use (declared with `content`), shared by several operations: each of them is dropped and
+    # each must be named
+    doc["components"]["parameters"] = {"ViaContent": {"name": "filter", "in": "query", "content": {"application/json": {"schema": {"type": "object", "properties": {"q": S}}}}},
+                                       "Fine": {"name": "page", "in": "query", "schema": I}}
+    for i, (pth, mth) in enumerate([("/orders", "get"), ("/invoices", "get"), ("/refunds", "post"), ("/orders", "delete")]):
+        paths.setdefault(pth, {})[mth] = {"operationId": f"shared_bad_{i}", "parameters": [{"$ref": "#/components/parameters/ViaContent"}, {"$ref": "#/components/parameters/Fine"}],
+                                          "responses": {"200": {"description": "ok"}}}
     doc["webhooks"] = {"evt": {"post": {"requestBody": {"content": {"application/json": {"schema": {"$ref": "#/components/schemas/Leaf"}}}}, "responses": {"200": {"description": "ok"}}}}}
     doc["components"]["securitySchemes"].update({"basic": {"type": "http", "scheme": "basic"}, "oauth": {"type": "oauth2", "flows": {"implicit": {"authorizationUrl": "https://a", "scopes": {"r": "read"}}}},
                                                  "oidc": {"type": "openIdConnect", "openIdConnectUrl": "https://o"}, "ck": {"type": "apiKey", "in": "cookie", "name": "sid"}})
